@@ -1,10 +1,11 @@
 CONF = {
     "level": "exploration",
-    "technique": "property-based differential testing (rapid): type-directed program generator, falco's simulator vs an independent reference evaluator written from the Fastly documentation (branch trace + final values), ACL longest-prefix reference",
+    "technique": "property-based differential testing (rapid): type-directed program generator, falco's simulator vs an independent reference evaluator written from the Fastly documentation (branch trace + final values), ACL longest-prefix reference; metamorphic duality probe (a < b == b > a, a <= b == b >= a, != negates ==) over INTEGER/FLOAT/RTIME variables of mixed type, where no reference value exists",
     "level_text": "Generated core-language programs are run by falco and by the harness's own reference evaluator; every log line and every final pooled value must agree wherever the documentation determines the outcome (the reference stops comparing when it leaves that fragment). Exploration of generated programs only.",
     "campaigns": [rapid("rapid", 40000, 1000000)],
     "assumptions": [
         "the reference evaluator (harness/ref/core.go) is the trusted base: 64-bit two's-complement INTEGER with C-style / and %, IEEE double FLOAT, RTIME in ms, BOOL, left-to-right concatenation with documented string renderings (%d, %.3f, seconds %.3f, 0/1), not-set handling, first-matching-case switch, longest-prefix ACL",
         "outside the determined fragment (overflow, division by zero, >>= of negatives, shift counts outside 0-63, truthiness of empty-but-set strings, not-set operands in concatenation) no expectation is derived",
+        "comparisons between operands of different numeric type are not predicted by the reference; they are judged by the duality laws alone, on the two spellings falco itself evaluates, and a spelling falco refuses with an error decides nothing",
     ],
 }
